@@ -5,6 +5,7 @@ exactly injectivity).
 -/
 import Driver.Parse
 import Driver.StoreEng
+import KyroModel.Tiered.Knn
 
 namespace Driver.Tiered
 open KyroModel Driver
@@ -130,6 +131,26 @@ def stepCore (st : Option S) (line : String) : Option S × String :=
     | some id, some v, some m, some ver, some dv => (some (pokeHot s id v m ⟨ver, dg dv⟩), "ok")
     | _, _, _, _, _ => (st, "bad-op")
   | "train", some _ => (st, "ok")
+  | "knn", some s =>
+    let parseCands := fun (txt : String) =>
+      if txt == "-" then some [] else
+      (txt.splitOn ",").mapM fun c =>
+        match c.splitOn ":" with
+        | i :: k :: b :: _ => do
+          let i ← i.toNat?
+          let k ← k.toNat?
+          let b ← b.toNat?
+          pure (⟨i, k, b⟩ : Knn.Cand)
+        | _ => none
+    match (field? fs "hot").bind parseCands, (field? fs "cold").bind parseCands, natField? fs "k",
+          field? fs "ef" with
+    | some hot, some cold, some k, some ef =>
+      if ef == "-" then (st, "unpredicted") else   -- cacheable path: see the qcache engine / C07
+      if k == 0 || k > 10000 then (st, "rejected") else
+      let (s', res) := Knn.knnStep dg s hot cold k
+      (some s', "ok res=" ++ (if res.isEmpty then "-" else
+        ",".intercalate (res.map fun c => s!"{c.id}:{c.key}:{c.bits}")))
+    | _, _, _, _ => (st, "bad-op")
   | "sizes", some s =>
     (st, s!"l1a={s.l1a.size} hot={s.hot.length} l1a_keys={showNatList (sortedKeys (s.l1a.a.entries ++ (if s.l1a.kind == .ab then s.l1a.b.entries else [])))} hot_keys={showNatList (sortedKeys s.hot)}")
   | "census", some s =>
